@@ -1036,3 +1036,111 @@ def generate(r, size=None):      # noqa: F811
         return src, feats + ["mode_generic_matrix"]
     src, feats = generate_nested(r)
     return src, feats + ["mode_nested_matrix"]
+
+
+# ---------------------------------------------------------------------------------------------
+# mode 4: the same checked CFG lowered several times (comptime-argument monomorphization), for
+# functions that never return (exit block without predecessors) and ordinary ones
+
+MULTI_PRELUDE = '''from guppylang import guppy
+from guppylang.std.builtins import comptime, owned
+from guppylang.std.quantum import qubit, discard, h
+
+T = guppy.type_var("T")
+
+
+@guppy.struct
+class P:
+    x: int
+    y: int
+
+'''
+MULTI_RET = {"none": ("None", None), "int": ("int", "{v}"), "tuple": ("tuple[int, bool]", "{v}[0]"),
+             "struct": ("P", "{v}.x"), "generic": ("T", None)}
+
+
+def generate_multi(r):
+    feats = set()
+    out = Lines()
+    helpers = []
+    for k in range(r.randint(1, 3)):
+        name = f"fn{k}"
+        diverge = r.random() < 0.6
+        ret = r.choice(list(MULTI_RET))
+        ct = r.choice(["int", "bool", "int_bool"])
+        params = {"int": "n: int @comptime", "bool": "f: bool @comptime", "int_bool": "n: int @comptime, f: bool @comptime"}[ct]
+        extra = r.choice(["", "x: int", "q: qubit"])
+        if ret == "generic":
+            extra = "x: T"
+        sig = ", ".join(p for p in (params, extra) if p)
+        out.add("@guppy")
+        out.add(f"def {name}({sig}) -> {MULTI_RET[ret][0]}:")
+        cond = "n > 1" if "n:" in params else "f"
+        val = {"none": None, "int": "3", "tuple": "(4, True)", "struct": "P(1, 2)", "generic": "x"}[ret]
+        if diverge:
+            form = r.choice(["while_true", "while_true_body", "branch_then_spin"])
+            if form == "while_true":
+                out.add("    while True:")
+                out.add("        pass")
+            elif form == "while_true_body":
+                out.add("    k = 0")
+                out.add("    while True:")
+                out.add("        k += 1" if extra != "q: qubit" else "        h(q)")
+            else:
+                out.add(f"    if {cond}:")
+                out.add("        while True:")
+                out.add("            pass")
+                out.add("    while True:")
+                out.add("        pass")
+        else:
+            out.add(f"    if {cond}:")
+            out.add(f"        return {val}" if val else "        return")
+            if extra == "q: qubit":
+                out.add("    h(q)")
+            out.add(f"    return {val}" if val else "    return")
+        out.add("")
+        out.add("")
+        helpers.append((name, ct, extra, ret, diverge))
+        feats.add(f"m_{'diverging' if diverge else 'returning'}_ret_{ret}")
+    out.add("@guppy")
+    out.add("def main(a: int, b: bool, q0: qubit) -> int:")
+    out.ind = 1
+    out.add("acc = a")
+    j = 0
+    for name, ct, extra, ret, diverge in helpers:
+        times = r.randint(1, 3)
+        feats.add(f"m_lowered_{times}x")
+        insts = []
+        while len(insts) < times:
+            c = {"int": lambda: str(r.randint(0, 4)), "bool": lambda: r.choice(["True", "False"]),
+                 "int_bool": lambda: f"{r.randint(0, 3)}, {r.choice(['True', 'False'])}"}[ct]()
+            if c not in insts or ct == "bool" and len(insts) >= 2:
+                insts.append(c)
+        for c in insts + ([insts[0]] if r.random() < 0.3 else []):
+            arg = {"": "", "x: int": ", acc", "q: qubit": ", q0", "x: T": r.choice([", acc", ", (acc, b)", ", None", ", P(acc, 1)"])}[extra]
+            call = f"{name}({c}{arg})"
+            in_branch = r.random() < 0.3
+            if in_branch:
+                out.add(f"if b and acc > {r.randint(0, 5)}:")
+                out.ind += 1
+            consume = MULTI_RET[ret][1]
+            if consume and r.random() < 0.8:
+                out.add(f"w{j} = {call}")
+                out.add(f"acc += {consume.format(v=f'w{j}')}")
+            else:
+                out.add(call if ret in ("none",) or r.random() < 0.5 else f"w{j} = {call}")
+            if in_branch:
+                out.ind -= 1
+            j += 1
+    out.add("return acc")
+    return MULTI_PRELUDE + "\n".join(out.lines) + "\n", sorted(feats)
+
+
+_generate_3modes = generate
+
+
+def generate(r, size=None):      # noqa: F811
+    if r.random() < 0.12:
+        src, feats = generate_multi(r)
+        return src, feats + ["mode_multi_lowering"]
+    return _generate_3modes(r, size)
